@@ -72,4 +72,7 @@ def rel_path(rng, depth=None, hostile=False):
     p = "/".join(segs)
     if hostile and rng.random() < 0.3:
         p = "./" + p
+    elif rng.random() < 0.06:
+        # spellings a path normaliser would rewrite; the library records relative paths verbatim
+        p = rng.choice(["./" + p, p.replace("/", "//", 1) if "/" in p else p + "//x", p + "/", segs[0] + "/../" + p, p.replace("/", "/./", 1) if "/" in p else "./" + p + "/."])
     return p
